@@ -3,6 +3,7 @@ from contracts import c10_c11_io as C
 from contracts import c01_lp  # noqa
 from contracts import c11_reader as R
 from contracts import c11_model as M2
+from contracts import c11_frontends as FE
 from props._generic import run_property, replay_with_driver
 
 LEVEL = "other"
@@ -21,7 +22,10 @@ def lemmas():
     raises_case = xr_lt(ub, lb)                                         # requires of case `lb_gt_ub`
     out = [Obl("C11/lemma/bounds-pair-protocol-never-raises-for-valid-pairs", dom, z3.And(valid_case, z3.Not(raises_case)), "lemma")]
     # round trip per object kind: writer post-condition o reader post-condition (contracts/c11_reader.py)
-    return out + R.lemmas() + M2.lemmas()
+    # the DictLists of a pickled model: what DictList.__reduce__ hands to pickle comes back as a well-formed list with the same
+    # identifiers in the same order (contracts/c15_query.py, from the post-conditions of the proved C15 contracts)
+    from contracts import c15_query as Q15
+    return out + R.lemmas() + M2.lemmas() + Q15.lemmas(prefix="C11")
 
 
 _READER_KEYS = ("_reaction_from_dict", "_metabolite_from_dict", "gene_from_dict")
@@ -144,7 +148,7 @@ def fallback(key, case, rec):
 
 
 def run(rep):
-    run_property(rep, KEYS, hooks=C.HOOKS, more=[(R.KEYS + R.ASSUMED_KEYS, R.HOOKS), (M2.KEYS + M2.ASSUMED_KEYS, M2.HOOKS)], lemmas=lemmas, fallback=fallback, explanation=(
+    run_property(rep, KEYS, hooks=C.HOOKS, more=[(R.KEYS + R.ASSUMED_KEYS, R.HOOKS), (M2.KEYS + M2.ASSUMED_KEYS, M2.HOOKS), (FE.KEYS + FE.ASSUMED_KEYS, FE.HOOKS)], lemmas=lemmas, fallback=fallback, explanation=(
         "Deductive part (the writer half of the dict form): dict._fix_type is proved to be the identity on str/float/bool/int, to map "
         "None to '' and a dictionary to a NEW dictionary with the same keys and value objects; dict._update_optional is proved, for "
         "its four instantiations (reaction, metabolite, gene, model key lists; None-able attributes in both shapes), to write an "
@@ -189,10 +193,29 @@ def run(rep):
         "the stored one when it is 'min' / 'max' and as 'max' otherwise; stated precondition: pairwise different reaction identifiers, "
         "finite coefficients; the readers' own preconditions are not discharged at this level. Glue lemmas: same list lengths and "
         "order through writer then reader, and a 'min' / 'max' direction comes back. "
+        "The FRONT ENDS of the JSON / YAML formats (contracts/c11_frontends.py, recorded-call contracts over assumed codecs): to_json makes "
+        "exactly the calls model_to_dict(model, sort=sort) - the caller's model and sort value - and json.dumps(d, allow_nan=False, "
+        "**kwargs) on the very dictionary returned, extended by 'version' = '1' only, the caller's keywords passed through, and returns "
+        "what dumps returned; from_json = model_from_dict(json.loads(document)); load_json_model (str / Path / handle): open(filename, 'r'), "
+        "json.load(handle), model_from_dict, the file closed afterwards - a handle is read directly, never opened or closed; "
+        "save_json_model (pretty x str / Path / handle x keywords): one model_to_dict call, 'version' added, json.dump(d, handle, "
+        "**opts) where opts is the table for `pretty` (the two tables differ in indent / separators / sort_keys only, BOTH hold "
+        "allow_nan=False) overridden by the caller's keywords and nothing else; to_yaml / from_yaml / save_yaml_model / load_yaml_model "
+        "likewise over the module's CobraYAML instance ('version' = '1.2'; StringIO for strings); CobraYAML.dump creates a StringIO and "
+        "returns its value exactly when no stream is given. allow_nan=False means an infinity or NaN left as a float would RAISE rather "
+        "than produce a non-standard document: by the proved writer contracts a bound is a string exactly when it is not finite, and the "
+        "writer's records consist of str, finite float, int, bool, lists and dictionaries with str keys (values of user notes / "
+        "annotations are not constrained) - the kinds for which loads(dumps(x)) == x is assumed. The pickle protocol methods "
+        "(__getstate__ / __setstate__ of Model, Object, Species, Reaction) are proved under C12 (contracts/c12_pickle.py). "
+        "Pickle, the DictList part (contracts/c15_query.py; DictList.__reduce__ / __getstate__ proved under C15): lemmas "
+        "dictlist-pickle-round-trip from the post-conditions of the proved DictList.__init__ / extend / append / __setstate__ - "
+        "unpickling element copies that keep their identifiers gives a well-formed DictList with the same identifiers in the same "
+        "order and the same index, and no step raises (assumed: pickle's reduce protocol for list items; an unpickled Object keeps "
+        "its id). "
         "The codecs (json, ruamel.yaml, pickle), the dict assembly loops over heterogeneous values and the gene-rule "
         "text are outside the verifier's reach: bounded driver (snapshot equality incl. the solver problem, optimum and idempotence for "
         "every format/variant on generated models, non-default Configuration bounds)."),
-        trusted=["json / ruamel.yaml / pickle codecs", "float(str(x)) == x (axiom of the round-trip lemmas, for +inf / -inf / NaN)",
+        trusted=["json / ruamel.yaml / pickle codecs", "front ends: model_to_dict / model_from_dict as recorded calls (proved under their own keys), json.dumps / loads / dump / load, YAML.dump / load, open / io.open (context manager that does not swallow exceptions), StringIO as recorded abstract calls that modify no caller object; loads(dumps(x)) == x for str / finite float / int / bool / None / list / dict with str keys", "float(str(x)) == x (axiom of the round-trip lemmas, for +inf / -inf / NaN)",
                  "float(s) / str(x) as uninterpreted functions (pyvc/builtins.py)",
                  "list.sort(key=itemgetter('id')) orders by the uninterpreted string order str_le over record_id (contracts/c11_model.py)",
                  "object_id(read_<kind>(record)) == record_id(record): the reader contracts, used as an axiom at the model level",
